@@ -200,7 +200,7 @@ func (c *client) Conn(ctx async.Context) (Conn, status.Status) {
 			case <-ctx.Wait():
 				return nil, ctx.Status()
 			case <-future.Wait():
-				return future.Result()
+				return c.connectResult(future)
 			case <-timer.C:
 				return nil, status.Timeoutf("mpx dial timeout, address=%v", c.addr)
 			}
@@ -212,17 +212,42 @@ func (c *client) Conn(ctx async.Context) (Conn, status.Status) {
 	case <-ctx.Wait():
 		return nil, ctx.Status()
 	case <-future.Wait():
-		return future.Result()
+		return c.connectResult(future)
 	}
 }
 
 // Channel returns a new channel.
+// connectResult returns the result of a connect routine, or a closed status when the client
+// has been closed while the call was waiting, the connection is closed already in this case.
+func (c *client) connectResult(future async.Future[internalConn]) (Conn, status.Status) {
+	conn, st := future.Result()
+	if !st.OK() {
+		return nil, st
+	}
+	if c.closed_.IsSet() {
+		return nil, status.Closedf("mpx client closed")
+	}
+	return conn, status.OK
+}
+
 func (c *client) Channel(ctx async.Context) (Channel, status.Status) {
 	conn, st := c.Conn(ctx)
 	if !st.OK() {
 		return nil, st
 	}
-	return conn.Channel(ctx)
+
+	ch, st := conn.Channel(ctx)
+	if !st.OK() {
+		return nil, st
+	}
+
+	// The client may have been closed while the call was pending, its connections are closed
+	// then, but a connection notices that only later and still opens channels.
+	if c.closed_.IsSet() {
+		ch.Free()
+		return nil, status.Closedf("mpx client closed")
+	}
+	return ch, status.OK
 }
 
 // connDelegate
